@@ -60,5 +60,21 @@ theorem order_indep_pair_iff (hR : R.Lawful) (less : α → α → Bool) (hl : R
   have hxy : x ≠ y := fun e => by subst e; rw [hR.refl x] at hne; cases hne
   cases h1 : less x y <;> cases h2 : less y x <;> simp_all
 
+/-- **Any correct sort gives the model's answer.**  `sortStable` is Go's algorithm
+only up to one insertion-sort block (20 elements); beyond that `sort.SliceStable`
+merges blocks.  Under a strict order total on the (pairwise distinct) elements,
+EVERY list that is a permutation of the input and ascending — whatever algorithm
+produced it — is `sortStable less l`. -/
+theorem sorted_perm_eq_sortStable (less : α → α → Bool) {l l' : List α} (h : StrictTotalOnList less l)
+    (hp : l'.Perm l) (hs : l'.Pairwise (fun a b => less a b = true)) : l' = sortStable less l := by
+  have s1 := sortStable_sorted less l h
+  refine List.Perm.eq_of_pairwise ?_ hs s1 (hp.trans (sortStable_perm less l).symm)
+  intro a b ha hb hab hba
+  have ha' : a ∈ l := hp.mem_iff.mp ha
+  have hb' : b ∈ l := (mem_sortStable less l b).mp hb
+  have := h.trans a ha' b hb' a ha' hab hba
+  rw [h.irrefl a ha'] at this
+  cases this
+
 end SetImpl
 end CtyModel
